@@ -17,7 +17,7 @@ from harness.C17 import prim_flags
 
 KINDS = [('signed', 1), ('signed', 2), ('signed', 4), ('signed', 8), ('unsigned', 1), ('unsigned', 2),
          ('unsigned', 4), ('unsigned', 8), ('bool', 1), ('float', 4), ('float', 8), ('char', 1),
-         ('pointer', 8), ('funcptr', 8), ('struct', 12), ('wchar', 2), ('wchar', 4)]
+         ('pointer', 8), ('funcptr', 8), ('struct', 12), ('wchar', 2), ('wchar', 4), ('longdouble', 16)]
 
 REPLAY = r'''
 # Replay for C18 against the real cffi build: ffi.unpack(p, n) vs [p[i] for i in range(n)]
@@ -28,7 +28,8 @@ kind, size, n, mis, data = case['kind'], case['size'], case['n'], case['misalign
 ffi.cdef('struct s12 { char c[12]; };')
 tn = {'signed': {1: 'signed char', 2: 'short', 4: 'int', 8: 'long long'}, 'unsigned': {1: 'unsigned char', 2: 'unsigned short', 4: 'unsigned int', 8: 'unsigned long long'},
       'bool': {1: '_Bool'}, 'float': {4: 'float', 8: 'double'}, 'char': {1: 'char'}, 'pointer': {8: 'int *'},
-      'funcptr': {8: 'int(*)(void)'}, 'struct': {12: 'struct s12'}, 'wchar': {2: 'char16_t', 4: 'char32_t'}}[kind][size]
+      'funcptr': {8: 'int(*)(void)'}, 'struct': {12: 'struct s12'}, 'wchar': {2: 'char16_t', 4: 'char32_t'},
+      'longdouble': {16: 'long double'}}[kind][size]
 raw = ffi.new('char[]', 16 + len(data) + 16)
 base = int(ffi.cast('uintptr_t', raw))
 start = (-base) %% 16 + mis
@@ -52,6 +53,10 @@ if a[0] == 'ok' and b[0] == 'ok':
         same = len(a[1]) == len(b[1]) and all(ffi.addressof(x) == ffi.addressof(y) for x, y in zip(a[1], b[1]))
     elif kind == 'float':
         same = len(a[1]) == len(b[1]) and all(x == y or (x != x and y != y) for x, y in zip(a[1], b[1]))
+    elif kind == 'longdouble':
+        # p[i] of a long double item is a <cdata 'long double'>: same kind of object, same 80-bit value
+        ld = lambda x: isinstance(x, ffi.CData) and ffi.typeof(x) is ffi.typeof('long double') and bytes(ffi.buffer(ffi.new('long double[1]', [x])))[:10]
+        same = len(a[1]) == len(b[1]) and all(ld(x) is not False and ld(x) == ld(y) for x, y in zip(a[1], b[1]))
     else:
         same = a[1] == b[1]
 else:
@@ -71,8 +76,9 @@ def make_replay(chk):
     return replay
 
 
-def same_value(ex, py, a, b):
-    """z3 Bool / python bool: objects a and b (addresses) denote the same Python value"""
+def same_value(ex, py, a, b, content=0):
+    """z3 Bool / python bool: objects a and b (addresses) denote the same Python value; content=k: cdata objects that own
+    a copy of the value (long double) are compared by type and by the first k bytes they hold"""
     a, b = simp(a), simp(b)
     if a == b:
         return True
@@ -94,6 +100,13 @@ def same_value(ex, py, a, b):
         return llsym.b_and(*[llsym.eq(p, q, 8) for p, q in zip(ia['data'], ib['data'])])
     if k.startswith('new:'):
         # cdata objects: same Python type, same c_type, same c_data
+        if content:
+            pa, pb = simp(ex.mem.load(a + 24, 8)), simp(ex.mem.load(b + 24, 8))
+            if not (is_c(pa) and is_c(pb)):
+                return False
+            return llsym.b_and(llsym.eq(ia['tp'], ib['tp'], 64),
+                               llsym.eq(ex.mem.load(a + 16, 8), ex.mem.load(b + 16, 8), 64),
+                               llsym.eq(ex.mem.load(pa, content), ex.mem.load(pb, content), 8 * content))
         return llsym.b_and(llsym.eq(ia['tp'], ib['tp'], 64),
                            llsym.eq(ex.mem.load(a + 16, 8), ex.mem.load(b + 16, 8), 64),
                            llsym.eq(ex.mem.load(a + 24, 8), ex.mem.load(b + 24, 8), 64))
@@ -125,6 +138,8 @@ def worker(args):
         iflags = F['CT_STRUCT']
     elif kind == 'wchar':
         iflags = F['CT_PRIMITIVE_CHAR'] | F['CT_PRIMITIVE_FITS_LONG']
+    elif kind == 'longdouble':
+        iflags = F['CT_PRIMITIVE_FLOAT'] | F['CT_IS_LONGDOUBLE']
     else:
         iflags = prim_flags(F, kind, size)
 
@@ -253,7 +268,7 @@ def worker(args):
             it = simp(ex.mem.load(li['arr'].base + 8 * i, 8))
             if not is_c(it):
                 it = ex.concretize(it, 64, 4, 'list item pointer')
-            disch('item%d==p[%d]' % (i, i), same_value(ex, py, it, ref[i]))
+            disch('item%d==p[%d]' % (i, i), same_value(ex, py, it, ref[i], content=(10 if kind == 'longdouble' else 0)))
 
     def on_oob(ex, what, model):
         chk.report_failure('%s: read outside length*itemsize bytes: %s' % (label, what), {}, None, None)
@@ -272,7 +287,7 @@ def run(chk):
                   'misalignment of source pointer': '0..7 (symbolic)', 'alignment field of the item type': 'natural alignment for primitives (= size), any value for pointer/struct items',
                   'item bytes': 'all values'}
     chk.outside = ['lengths above the bound (loop body depends on i only through src += itemsize)',
-                   'long double and complex items']
+                   'complex items; long double items: the 6 padding bytes of each 16-byte item are not compared (x86_fp80 holds 10)']
     chk.assume('CPython API contracts of vf/pystubs.py; PyArg_ParseTupleAndKeywords delivers (cdata, length)')
     chk.assume('char16_t items are UTF-16 code units: "joined" means decoded as UTF-16 (a high surrogate followed by a low one is one '
                'character), which is what p[i] cannot express for a single unit')
